@@ -786,8 +786,15 @@ def build_real(ctx, m, rng, plain=False):
     return Tree(m.ref)
 
 
-def random_model_tree(rng, n, draw, max_arity=5, unary=2):
+def random_model_tree(rng, n, draw, max_arity=5, unary=2, caterpillar=False):
     forest = [MNode(index=int(i)) for i in rng.permutation(n)]
+    if caterpillar:
+        # every inner node has one leaf and the rest of the tree as children: nesting depth n - 1
+        spine = forest[0]
+        for leaf in forest[1:]:
+            kids = [spine, leaf] if rng.random() < 0.5 else [leaf, spine]
+            spine = MNode(kids, [draw() for _ in kids])
+        return spine
     while True:
         if len(forest) == 1:
             if unary > 0 and rng.random() < 0.5:
@@ -1091,8 +1098,13 @@ def case_random_tree(rng, ctx):
     scale = pick_scale(rng)
     max_arity = int(rng.choice([2, 3, 5, 5]))
     unary = int(rng.integers(0, 5)) if rng.random() < 0.5 else 0
-    m = random_model_tree(rng, n, branch_drawer(rng, scale, style), max_arity, unary)
-    ctx.log({"tree": m_log(m), "n": n, "style": style})
+    deep = rng.random() < 0.04
+    if deep:
+        # nesting deeper than 127 / 255 levels (what the Newick writer emits for such a tree must parse again)
+        n = int(rng.choice([126, 129, 130, 200, 257, 300]))
+        ctx.op("deep_caterpillar_tree")
+    m = random_model_tree(rng, n, branch_drawer(rng, scale, style), max_arity, unary, caterpillar=deep)
+    ctx.log({"tree": m_log(m) if not deep else "caterpillar", "n": n, "style": style})
     tree = build_real(ctx, m, rng)
     if tree.root is not m.ref or not m.ref.is_root():
         ctx.fail("construct_matches_model", "Tree.root is not the node given / not marked as root")
